@@ -82,6 +82,78 @@ class Mon:
                                                                  "rule": "groups"})
         return self.groups_real
 
+    # -- random license_groups files: nesting depth up to 4, lines in any order ----------------------------------
+    def check_group_file(self, rng, serial):
+        from pkgcore.ebuild import misc
+        from pkgcore.ebuild.repo_objs import Licenses
+
+        ngroups = rng.randrange(2, 7)
+        names = ["G%d" % i for i in range(ngroups)]
+        raw = {}
+        for i, nm in enumerate(names):
+            toks = [rng.choice(ALL_LICENSES) for _ in range(rng.randrange(0, 3))]
+            # acyclic: a group may only reference groups with a higher index; chains get deep on purpose
+            for j in range(i + 1, ngroups):
+                if rng.random() < (0.75 if j == i + 1 else 0.2):
+                    toks.append("@" + names[j])
+            if rng.random() < 0.1:
+                toks.append("@nosuchgroup")
+            rng.shuffle(toks)
+            if toks:
+                raw[nm] = toks
+        order = list(raw)
+        rng.shuffle(order)
+        if not order:
+            return
+        base = os.path.join(os.environ.get("VT_SCRATCH") or "/var/tmp", "c12_grp_%d_%d" % (os.getpid(), serial))
+        os.makedirs(os.path.join(base, "profiles"), exist_ok=True)
+        os.makedirs(os.path.join(base, "licenses"), exist_ok=True)
+        with open(os.path.join(base, "profiles", "license_groups"), "w") as f:
+            for k in order:
+                f.write("%s %s\n" % (k, " ".join(raw[k])))
+        for lic in ALL_LICENSES:
+            with open(os.path.join(base, "licenses", lic), "w") as f:
+                f.write("text\n")
+
+        class _Repo:
+            location = base
+
+        want = ref.flatten_groups({k: raw[k] for k in order})
+        depth = max((self._depth(raw, k) for k in raw), default=0)
+        self.ctx.count("group_files")
+        self.ctx.count("group_file_depth:%d" % depth)
+        try:
+            groups = Licenses(_Repo()).groups
+            got = {k: set(v) for k, v in groups.items()}
+        except Exception as e:  # noqa: BLE001
+            got, groups = {"<exception>": {repr(e)}}, None
+        self.ctx.evaluated()
+        if depth >= 2:
+            self.ctx.nontrivial(("groupfile", tuple((k, tuple(raw[k])) for k in order)))
+        wit = {"file_lines": [[k] + raw[k] for k in order], "rule": "groups-depth-%d" % min(depth, 3)}
+        bad = {k for k in want if want[k] != {t for t in got.get(k, ()) if not t.startswith("@")} or any(t.startswith("@") and t[1:] in raw for t in got.get(k, ()))}
+        if bad:
+            self.ctx.violation("license-groups-flattening", dict(wit, impl={k: sorted(got.get(k, ())) for k in sorted(bad)},
+                                                                 expected={k: sorted(want[k]) for k in sorted(bad)}))
+        elif groups is not None:
+            # the flattened mapping feeds the real expansion: @G / -@G must add / remove the member licenses
+            for _ in range(4):
+                toks = [rng.choice(["@" + rng.choice(order), "-@" + rng.choice(order), rng.choice(ALL_LICENSES), "*", "-*"])
+                        for _ in range(rng.randrange(1, 6))]
+                st, res = self.call(misc.incremental_expansion_license, None, ALL_LICENSES, groups, toks)
+                exp = ref.fold_license(toks, ALL_LICENSES, want) if hasattr(ref, "fold_license") else None
+                if exp is not None and st == "ok":
+                    self.ctx.evaluated()
+                    if set(res) != set(exp):
+                        self.ctx.violation("license-expansion-with-file-groups", dict(wit, tokens=toks, impl=sorted(res), expected=sorted(exp)))
+        import shutil
+        shutil.rmtree(base, ignore_errors=True)
+
+    @staticmethod
+    def _depth(raw, k, seen=()):
+        refs = [t[1:] for t in raw.get(k, ()) if t.startswith("@") and t[1:] in raw and t[1:] not in seen]
+        return 1 + max((Mon._depth(raw, r, seen + (k,)) for r in refs), default=0) if refs else 0
+
     # -- plain streams ---------------------------------------------------------------------------------------------
     def call(self, f, *a, **kw):
         try:
@@ -403,6 +475,9 @@ def run(ctx):
             break
     else:
         ctx.count("exhaustive_license_complete")
+    # (a') random license_groups files with deep / unordered nesting
+    for k in range(ctx.budget(120, 1500)):
+        mon.check_group_file(rng, k)
     # (b) random longer streams
     for k in range(ctx.budget(25000, 200000)):
         n = rng.randint(0, 12)
